@@ -1680,7 +1680,7 @@ func (a *align) InformativeSites() (sites []int) {
 		nbinformative = 0
 		mapstats = make([]int, 130)
 		for _, seq := range a.seqs {
-			s := seq.sequence[site]
+			s := uint8(unicode.ToUpper(rune(seq.sequence[site])))
 			if s != GAP && s != POINT && s != all {
 				mapstats[int(unicode.ToUpper(rune(seq.sequence[site])))]++
 				if count = mapstats[int(unicode.ToUpper(rune(seq.sequence[site])))]; count == 2 {
